@@ -1,6 +1,8 @@
 import PynProofs.SetOps
 import PynProofs.Diff
 import PynProofs.Union
+import PynProofs.Endpoints
+import PynProps.C01
 import PynModel.Core.ISet
 /-!
 # C02 — union / intersect / set_diff are the Boolean set operations on the time line
@@ -23,12 +25,16 @@ Proved here (all sizes, all coincidence patterns):
   `union_pointwise`: x in an emitted interval ⇔ x ∈ A ∨ x ∈ B (`PynProofs/Union.lean`: `unionSkip_spec`,
   `unionChain_spec`, `jitunionLoop_spec`, `emitRest_spec`); corollaries `union_comm_pointwise`,
   `union_idem_pointwise`; the **n-ary union** kernel `jitunion_isets` pointwise and exactly (`unionIsets_mem`).
-What remains outside the theorems: the 1-microsecond touch separation applied by the constructor to the kernel
-output (C01) and the duration identities; they are decided by the exhaustive order-type correspondence +
-pointwise oracle of the check (stated in the evidence).
+* **the public operations** (`ISet.union/intersect/diff` = constructor ∘ kernel, the functions the driver runs):
+  every endpoint of a kernel output is an endpoint of an operand and no emitted interval is inverted
+  (`PynProofs/Endpoints.lean`), so with C01's `mk_sound / mk_complete` the C02 clause holds end to end —
+  `ISet_union_pointwise`, `ISet_intersect_pointwise`, `ISet_diff_pointwise`: for canonical A, B and every instant
+  farther than 1 µs from every endpoint of A and B, membership in the result is `∨`, `∧`, `∧ ¬`; corollaries
+  `ISet_union_comm`, `ISet_intersect_comm`.
+Outside the theorems: the duration identities (decided by the exhaustive order-type correspondence + oracle).
 -/
 namespace Pyn.C02
-open Pyn
+open Pyn Pyn.C01
 
 /-- **intersect, soundness and parents.**  For any two interval arrays (no hypothesis), the k-th
 emitted interval is `[max(s1[i], s2[j]), min(e1[i], e2[j])]` for its recorded parents `(i, j)`,
@@ -431,6 +437,159 @@ theorem union_idem_pointwise (s1 e1 : Array Int) (h1 : s1.size = e1.size) (hcA :
     InU (jitunion s1 e1 s1 e1 h1 h1) x ↔ InIv s1 e1 h1 x := by
   rw [union_pointwise s1 e1 s1 e1 h1 h1 hcA hcA]; exact or_self_iff
 
+
+/-! ## the public operations: constructor ∘ kernel -/
+
+/-- `x` is farther than one microsecond from every endpoint of A and of B (the instants C02 speaks about) -/
+def FarEnds (s1 e1 s2 e2 : Array Int) (x : Int) : Prop :=
+  ∀ v, IsEnd s1 e1 s2 e2 v → x < v - 1000 ∨ v + 1000 < x
+
+/-- the constructor applied to a kernel output whose endpoints are endpoints of the operands neither adds nor
+removes an instant that is farther than 1 µs from those endpoints -/
+theorem mk_of_entries (s1 e1 s2 e2 st en : Array Int) (ho : EntOK s1 e1 s2 e2 st en) (x : Int)
+    (hfar : FarEnds s1 e1 s2 e2 x) :
+    InOut (ISet.mk st en ho.1) x ↔ InIv st en ho.1 x := by
+  constructor
+  · intro hx
+    exact mk_sound st en ho.1 x hx
+  · intro hx
+    apply mk_complete st en ho.1 (fun i hi => (ho.2 i hi (ho.1 ▸ hi)).2.2) x hx
+    · intro i hi
+      obtain ⟨a, b, _⟩ := ho.2 i hi (ho.1 ▸ hi)
+      have := hfar _ a; have := hfar _ b
+      constructor <;> omega
+    · intro i hi
+      obtain ⟨a, _, _⟩ := ho.2 i hi (ho.1 ▸ hi)
+      have := hfar _ a
+      omega
+
+/-- **C02 at the level of the public operation, union**: `A.union(B)` = constructor ∘ `jitunion`.  For canonical
+A, B and every instant farther than 1 µs from every endpoint of A and B: x ∈ A.union(B) ⇔ x ∈ A ∨ x ∈ B -/
+theorem union_api (s1 e1 s2 e2 : Array Int) (h1 : s1.size = e1.size) (h2 : s2.size = e2.size)
+    (hcA : Canon s1 e1 h1) (hcB : Canon s2 e2 h2) (x : Int) (hfar : FarEnds s1 e1 s2 e2 x) :
+    InOut (ISet.mk (jitunion s1 e1 s2 e2 h1 h2).st (jitunion s1 e1 s2 e2 h1 h2).en
+      (jitunion_entries s1 e1 s2 e2 h1 h2 hcA hcB).1) x ↔ (InIv s1 e1 h1 x ∨ InIv s2 e2 h2 x) := by
+  rw [mk_of_entries s1 e1 s2 e2 _ _ (jitunion_entries s1 e1 s2 e2 h1 h2 hcA hcB) x hfar,
+    ← union_pointwise s1 e1 s2 e2 h1 h2 hcA hcB x]
+  constructor
+  · rintro ⟨k, hk, a, b⟩; exact ⟨k, hk, _, a, b⟩
+  · rintro ⟨k, hk, hk2, a, b⟩; exact ⟨k, hk, a, b⟩
+
+theorem far_strict (s1 e1 s2 e2 : Array Int) (x : Int) (hfar : FarEnds s1 e1 s2 e2 x) (v : Int)
+    (hv : IsEnd s1 e1 s2 e2 v) : x ≠ v := by
+  have := hfar v hv; omega
+
+/-- **intersect, public operation**: x ∈ A.intersect(B) ⇔ x ∈ A ∧ x ∈ B -/
+theorem intersect_api (s1 e1 s2 e2 : Array Int) (h1 : s1.size = e1.size) (h2 : s2.size = e2.size)
+    (hcA : Canon s1 e1 h1) (hcB : Canon s2 e2 h2) (x : Int) (hfar : FarEnds s1 e1 s2 e2 x) :
+    InOut (ISet.mk (jitintersect s1 e1 s2 e2 h1 h2).st (jitintersect s1 e1 s2 e2 h1 h2).en
+      (jitintersect_entries s1 e1 s2 e2 h1 h2 hcA hcB).1) x ↔ (InIv s1 e1 h1 x ∧ InIv s2 e2 h2 x) := by
+  rw [mk_of_entries s1 e1 s2 e2 _ _ (jitintersect_entries s1 e1 s2 e2 h1 h2 hcA hcB) x hfar]
+  constructor
+  · rintro ⟨k, hk, a, b⟩
+    exact intersect_sound s1 e1 s2 e2 h1 h2 k hk x a b
+  · rintro ⟨⟨i, hi, a1, a2⟩, ⟨j, hj, b1, b2⟩⟩
+    have n1 := far_strict s1 e1 s2 e2 x hfar _ (Or.inl (Array.getElem_mem hi))
+    have n2 := far_strict s1 e1 s2 e2 x hfar _ (Or.inr (Or.inl (Array.getElem_mem (h1 ▸ hi))))
+    obtain ⟨k, hk, hk2, c, d⟩ := intersect_complete s1 e1 s2 e2 h1 h2 hcA hcB x i j hi hj ⟨a1, a2⟩ ⟨b1, b2⟩
+      ⟨by omega, by omega⟩
+    exact ⟨k, hk, c, d⟩
+
+/-- **set_diff, public operation**: x ∈ A.set_diff(B) ⇔ x ∈ A ∧ x ∉ B -/
+theorem diff_api (s1 e1 s2 e2 : Array Int) (h1 : s1.size = e1.size) (h2 : s2.size = e2.size)
+    (hcA : Canon s1 e1 h1) (hcB : Canon s2 e2 h2) (x : Int) (hfar : FarEnds s1 e1 s2 e2 x) :
+    InOut (ISet.mk (jitdiff s1 e1 s2 e2 h1 h2).st (jitdiff s1 e1 s2 e2 h1 h2).en
+      (jitdiff_entries s1 e1 s2 e2 h1 h2 hcA hcB).1) x ↔ (InIv s1 e1 h1 x ∧ ¬ InIv s2 e2 h2 x) := by
+  rw [mk_of_entries s1 e1 s2 e2 _ _ (jitdiff_entries s1 e1 s2 e2 h1 h2 hcA hcB) x hfar,
+    ← diff_pointwise s1 e1 s2 e2 h1 h2 hcA hcB x (fun j hj =>
+      ⟨far_strict s1 e1 s2 e2 x hfar _ (Or.inr (Or.inr (Or.inl (Array.getElem_mem hj)))),
+       far_strict s1 e1 s2 e2 x hfar _ (Or.inr (Or.inr (Or.inr (Array.getElem_mem (h2 ▸ hj)))))⟩)]
+  constructor
+  · rintro ⟨k, hk, a, b⟩; exact ⟨k, hk, _, a, b⟩
+  · rintro ⟨k, hk, hk2, a, b⟩; exact ⟨k, hk, a, b⟩
+
+
+/-! ### the same three statements for the model functions the driver runs (`ISet.union/intersect/diff` on arrays of
+pairs = what `IntervalSet.union/intersect/set_diff` return) -/
+
+theorem inIv_pairs (a : Array (Int × Int)) (x : Int) :
+    InIv (pairsSt a) (pairsEn a) (pairs_size a) x ↔ InOut a x := by
+  constructor
+  · rintro ⟨k, hk, c, d⟩
+    have hk' : k < a.size := by simpa [pairsSt] using hk
+    refine ⟨a[k], Array.getElem_mem hk', ?_, ?_⟩
+    · simpa [pairsSt] using c
+    · simpa [pairsEn] using d
+  · rintro ⟨p, hp, c, d⟩
+    obtain ⟨k, hk, e⟩ := Array.mem_iff_getElem.1 hp
+    refine ⟨k, by simpa [pairsSt] using hk, ?_, ?_⟩
+    · simpa [pairsSt, e] using c
+    · simpa [pairsEn, e] using d
+
+theorem ISet_union_pointwise (a b : Array (Int × Int))
+    (hca : Canon (pairsSt a) (pairsEn a) (pairs_size a)) (hcb : Canon (pairsSt b) (pairsEn b) (pairs_size b))
+    (x : Int) (hfar : FarEnds (pairsSt a) (pairsEn a) (pairsSt b) (pairsEn b) x) :
+    InOut (ISet.union a b) x ↔ (InOut a x ∨ InOut b x) := by
+  have h := (jitunion_entries _ _ _ _ (pairs_size a) (pairs_size b) hca hcb).1
+  simp only [ISet.union, dif_pos h]
+  rw [union_api _ _ _ _ _ _ hca hcb x hfar, inIv_pairs, inIv_pairs]
+
+theorem ISet_intersect_pointwise (a b : Array (Int × Int))
+    (hca : Canon (pairsSt a) (pairsEn a) (pairs_size a)) (hcb : Canon (pairsSt b) (pairsEn b) (pairs_size b))
+    (x : Int) (hfar : FarEnds (pairsSt a) (pairsEn a) (pairsSt b) (pairsEn b) x) :
+    InOut (ISet.intersect a b) x ↔ (InOut a x ∧ InOut b x) := by
+  have h := (jitintersect_entries _ _ _ _ (pairs_size a) (pairs_size b) hca hcb).1
+  simp only [ISet.intersect, dif_pos h]
+  rw [intersect_api _ _ _ _ _ _ hca hcb x hfar, inIv_pairs, inIv_pairs]
+
+theorem ISet_diff_pointwise (a b : Array (Int × Int))
+    (hca : Canon (pairsSt a) (pairsEn a) (pairs_size a)) (hcb : Canon (pairsSt b) (pairsEn b) (pairs_size b))
+    (x : Int) (hfar : FarEnds (pairsSt a) (pairsEn a) (pairsSt b) (pairsEn b) x) :
+    InOut (ISet.diff a b) x ↔ (InOut a x ∧ ¬ InOut b x) := by
+  have h := (jitdiff_entries _ _ _ _ (pairs_size a) (pairs_size b) hca hcb).1
+  simp only [ISet.diff, dif_pos h]
+  rw [diff_api _ _ _ _ _ _ hca hcb x hfar, inIv_pairs, inIv_pairs]
+
+/-- hence union and intersect are commutative and all three idempotent / absorbing, on those instants -/
+theorem ISet_union_comm (a b : Array (Int × Int))
+    (hca : Canon (pairsSt a) (pairsEn a) (pairs_size a)) (hcb : Canon (pairsSt b) (pairsEn b) (pairs_size b))
+    (x : Int) (hfar : FarEnds (pairsSt a) (pairsEn a) (pairsSt b) (pairsEn b) x) :
+    InOut (ISet.union a b) x ↔ InOut (ISet.union b a) x := by
+  have hfar' : FarEnds (pairsSt b) (pairsEn b) (pairsSt a) (pairsEn a) x := by
+    intro v hv; apply hfar v
+    rcases hv with h | h | h | h
+    · exact Or.inr (Or.inr (Or.inl h))
+    · exact Or.inr (Or.inr (Or.inr h))
+    · exact Or.inl h
+    · exact Or.inr (Or.inl h)
+  rw [ISet_union_pointwise a b hca hcb x hfar, ISet_union_pointwise b a hcb hca x hfar']
+  exact Or.comm
+
+theorem ISet_intersect_comm (a b : Array (Int × Int))
+    (hca : Canon (pairsSt a) (pairsEn a) (pairs_size a)) (hcb : Canon (pairsSt b) (pairsEn b) (pairs_size b))
+    (x : Int) (hfar : FarEnds (pairsSt a) (pairsEn a) (pairsSt b) (pairsEn b) x) :
+    InOut (ISet.intersect a b) x ↔ InOut (ISet.intersect b a) x := by
+  have hfar' : FarEnds (pairsSt b) (pairsEn b) (pairsSt a) (pairsEn a) x := by
+    intro v hv; apply hfar v
+    rcases hv with h | h | h | h
+    · exact Or.inr (Or.inr (Or.inl h))
+    · exact Or.inr (Or.inr (Or.inr h))
+    · exact Or.inl h
+    · exact Or.inr (Or.inl h)
+  rw [ISet_intersect_pointwise a b hca hcb x hfar, ISet_intersect_pointwise b a hcb hca x hfar']
+  exact And.comm
+
+
+-- the hypotheses of the end-to-end statements are satisfiable (shared instant 5000 is an endpoint of B only)
+example : InOut (ISet.diff #[(0, 10000)] #[(5000, 20000)]) 2500 := by
+  refine (ISet_diff_pointwise #[(0, 10000)] #[(5000, 20000)] ?_ ?_ 2500 ?_).2 ⟨⟨(0, 10000), by simp, by decide, by decide⟩, ?_⟩
+  · refine ⟨fun k h => ?_, fun k h => ?_⟩ <;> simp [pairsSt, pairsEn] at h ⊢ <;> omega
+  · refine ⟨fun k h => ?_, fun k h => ?_⟩ <;> simp [pairsSt, pairsEn] at h ⊢ <;> omega
+  · intro v hv
+    simp [IsEnd, pairsSt, pairsEn] at hv
+    omega
+  · rintro ⟨p, hp, h1, h2⟩
+    simp at hp; subst hp; simp at h1
 
 /-! non-vacuity of the hypotheses: canonical operands with shared endpoints, and an instant meeting them -/
 example : Canon #[0, 10] #[5, 20] rfl ∧ Canon #[3, 5, 15] #[4, 12, 20] rfl := by
